@@ -237,8 +237,8 @@ func enumForests(n int, alphabet []string, fn func([]*Tree)) {
 type Spelling struct {
 	IndentChar byte   `json:"indent_char"` // ' ' or '\t'
 	Unit       int    `json:"unit"`
-	Bullets    string `json:"bullets"` // cycled per item line, from "-*+"
-	Sharp      bool   `json:"sharp"`   // roots as "# name"
+	Bullets    string `json:"bullets"`     // cycled per item line, from "-*+"
+	Sharp      bool   `json:"sharp"`       // roots as "# name"
 	BlankEvery int    `json:"blank_every"` // insert a blank row before every k-th row (0: none)
 	BlankRow   string `json:"blank_row"`
 	CRLF       bool   `json:"crlf"`
